@@ -165,10 +165,19 @@ def run(ctx):
     crosscheck_bad = 0
     for i, v in enumerate(vals):
         for jm in (True, False):
-            if i % 2 == 0:
-                str(printers[jm](v))          # the same printer object is used for a coloured rendering first
-            res = printers[jm](v, no_color=True)
-            text = res.plain_text()
+            try:
+                if i % 2 == 0:
+                    str(printers[jm](v))          # the same printer object is used for a coloured rendering first
+                res = printers[jm](v, no_color=True)
+                text = res.plain_text()
+                list(printers[jm](v, no_color=True))
+            except Exception as ex:          # noqa
+                from vcheck import real_code_failure
+                msg = real_code_failure(ex)
+                if msg is None:
+                    raise
+                ctx.violation({'value': v, 'json': jm}, 'printing the value: ' + msg)
+                continue
             if '\x1b' in str(res):
                 ctx.violation({'value': v, 'json': jm}, 'no_color output contains an escape character')
                 continue
